@@ -13,6 +13,7 @@ use fv_harness::common::*;
 
 mod explore;
 mod fields;
+mod glyfhostile;
 mod ift;
 mod kernels;
 mod matrix;
